@@ -349,4 +349,10 @@ def estimate_stats(voltages, stats_calc_num_samples=10000):
     data_sigma = xp.std(voltages[:calc_len])
     data_mean = xp.mean(voltages[:calc_len])
     
+    # The rounded mean of constant samples can differ from them in the last bit, which
+    # leaves a tiny non-zero deviation; a constant input has exactly zero deviation.
+    if calc_len > 0 and xp.amax(voltages[:calc_len]) == xp.amin(voltages[:calc_len]):
+        data_mean = xp.amin(voltages[:calc_len])
+        data_sigma = 0.
+    
     return data_mean, data_sigma
